@@ -14,7 +14,8 @@
 (***************************************************************************)
 EXTENDS XmlIn, Json
 
-CONSTANTS Groups       \* the groups of inputs explored in this run (presets below: bounds per group)
+CONSTANTS Groups,      \* the groups of inputs explored in this run (presets below: bounds per group)
+          Rot          \* 0..2: which third of the rotating classes the quick groups take (the run's seed decides)
 
 VARIABLES grp, pk, ph, ctx, toks, stk, nodes, odd, op, rs, st
 vars == <<grp, pk, ph, ctx, toks, stk, nodes, odd, op, rs, st>>
@@ -31,6 +32,19 @@ NamesTiny == {"p", "t", "tbl", "text", "r", "unknown"}
 WrongAll  == {"p", "tbl", "tr", "tc", "t", "r", "body", "sectPr", "drawing", "text", "document", "gridCol", "tcPr", "pPr", "blip"}
 WrongMini == {"p", "tbl", "tc", "t", "body", "text", "sectPr"}
 CtxMain   == {"root", "body", "bsdt", "p", "r", "tbl", "tr", "tc", "sectPr", "inline"}
+\* the loops every quick group visits / the loops below them (property lists, floating pictures, picture parts),
+\* which the position-dependent mutations of the quick tier visit a third at a time
+CtxFirst  == {"root", "doc", "body", "bsdt", "p", "pPr", "hlink", "r", "rPr", "t", "instr", "tbl", "tblPr", "tr", "tc", "tcPr", "tcp",
+              "sectPr", "drawing", "inline", "anchor", "gdata", "pic", "apic"}
+CtxLowerSeq == <<"sdt", "wpoly", "tblGrid", "ins", "wrapT", "tblBorders", "numPr", "wrapThr", "tblCellMar", "pBdr", "wrapTB", "trPr",
+                 "tabs", "posH", "tcBorders", "unknown", "posV", "tcMar", "gfp", "align", "nvPicPr", "graphic", "posOff", "cNvPicPr",
+                 "blipFill", "wpolyThr", "spPr", "xfrm">>
+CtxLower  == {CtxLowerSeq[i] : i \in 1..Len(CtxLowerSeq)}
+CtxLowerRot == {CtxLowerSeq[i] : i \in {k \in 1..Len(CtxLowerSeq) : k % 3 = Rot}}
+AttrRot   == IF Rot = 0 THEN {"none", "huge"} ELSE IF Rot = 1 THEN {"word", "neg"} ELSE {"big", "none"}
+ASSUME /\ Rot \in 0..2
+       /\ CtxFirst \cup CtxLower = AllCtx /\ CtxFirst \cap CtxLower = {} /\ Cardinality(CtxLower) = Len(CtxLowerSeq)
+       /\ CtxGrammatical /\ CtxCoverLoops /\ LieSound
 TextAll   == TextClasses
 MutTags   == {"trunc", "truncmid", "dropend", "dupstart", "dupend", "swapend"}
 MutExtreme == {"deep", "wide", "bigtext", "bigattr", "manyattrs"}
@@ -40,48 +54,57 @@ EntriesAll == {"mem", "file", "memerr"}
 
 Def == [ctxs |-> AllCtx, names |-> NamesAll, wrong |-> WrongAll, attrdev |-> AttrClasses \ {"ok"}, textcls |-> {"plain"},
         maxnodes |-> 1, minnodes |-> 0, maxdepth |-> 2, maxodd |-> 1, muts |-> {"none"}, deeps |-> {}, wides |-> {},
-        pkparts |-> {}, pkbreaks |-> {}, zips |-> {"ok"}, entries |-> {"mem"}, rich |-> {TRUE}, cross |-> FALSE, battery |-> "std"]
+        pkparts |-> {}, pkbreaks |-> {}, zips |-> {"ok"}, lies |-> {}, entries |-> {"mem"}, rich |-> {TRUE}, cross |-> FALSE, battery |-> "std"]
 With(r, f, v) == [r EXCEPT ![f] = v]
 W2(r, f1, v1, f2, v2) == With(With(r, f1, v1), f2, v2)
 W3(r, f1, v1, f2, v2, f3, v3) == With(W2(r, f1, v1, f2, v2), f3, v3)
 PkAll(r) == [r EXCEPT !.pkparts = PkParts, !.pkbreaks = PkBreaks, !.zips = ZipShapes, !.entries = EntriesAll]
+PkLies(r) == [PkAll(r) EXCEPT !.lies = ZipLies]
 
 GroupDef(gn) ==
   CASE \* ---- quick tier
-       gn = "q-place1" -> W2(Def, "battery", "full", "textcls", {"plain", "cdata"})
+       gn = "q-place1" -> W3(Def, "ctxs", CtxFirst, "battery", "full", "textcls", {"plain", "cdata"})
+    [] gn = "q-place1n" -> W3(Def, "ctxs", CtxLower, "wrong", WrongMini, "attrdev", AttrRot)
     [] gn = "q-place2" -> [Def EXCEPT !.ctxs = CtxMain, !.names = NamesMini, !.wrong = WrongMini, !.attrdev = {}, !.minnodes = 2, !.maxnodes = 2]
-    [] gn = "q-mut0"   -> W2(Def, "maxnodes", 0, "muts", MutSmall)
-    [] gn = "q-mut1"   -> [Def EXCEPT !.names = NamesMini, !.maxodd = 0, !.minnodes = 1, !.muts = {"trunc", "dropend"}]
+    [] gn = "q-mut0"   -> W3(Def, "ctxs", CtxFirst, "maxnodes", 0, "muts", MutSmall)
+    [] gn = "q-mut0n"  -> W3(Def, "ctxs", CtxLowerRot, "maxnodes", 0, "muts", MutTags)
+    [] gn = "q-mut1"   -> [Def EXCEPT !.ctxs = CtxFirst, !.names = NamesMini, !.maxodd = 0, !.minnodes = 1, !.muts = {"trunc", "dropend"}]
+    [] gn = "q-ziplie" -> [Def EXCEPT !.ctxs = {"body"}, !.maxnodes = 0, !.lies = ZipLies, !.entries = {"mem", "file"}]
     [] gn = "q-pkg"    -> PkAll([Def EXCEPT !.ctxs = {"body", "tc"}, !.maxnodes = 0, !.battery = "full"])
     [] gn = "q-extreme" -> [Def EXCEPT !.ctxs = {"tc", "r"}, !.names = {"p", "t", "tbl", "text"}, !.wrong = {"tbl"}, !.attrdev = {}, !.minnodes = 1,
                                      !.muts = MutExtreme, !.deeps = {2000}, !.wides = {8000}]
-    [] gn = "q-sim"    -> PkAll([Def EXCEPT !.maxnodes = 9, !.maxdepth = 4, !.maxodd = 3, !.muts = MutSim, !.textcls = TextAll, !.rich = {TRUE, FALSE}, !.cross = TRUE])
+    [] gn = "q-sim"    -> PkLies([Def EXCEPT !.maxnodes = 9, !.maxdepth = 4, !.maxodd = 3, !.muts = MutSim, !.textcls = TextAll, !.rich = {TRUE, FALSE}, !.cross = TRUE])
        \* ---- thorough tier
-    [] gn = "t-place2" -> [Def EXCEPT !.maxnodes = 2, !.attrdev = {"none", "huge"}, !.textcls = {"plain", "ent", "cdata", "comment"}]
+    [] gn = "t-place2n" -> [Def EXCEPT !.ctxs = CtxLower, !.maxnodes = 2, !.wrong = WrongMini, !.attrdev = {"none", "huge"}, !.textcls = {"plain", "cdata"}]
+    [] gn = "t-mut0n"  -> W3(Def, "ctxs", CtxLower, "maxnodes", 0, "muts", MutSmall)
+    [] gn = "t-mut1n"  -> [Def EXCEPT !.ctxs = CtxLower, !.maxodd = 0, !.minnodes = 1, !.muts = MutTags]
+    [] gn = "t-place2" -> [Def EXCEPT !.ctxs = CtxFirst, !.maxnodes = 2, !.attrdev = {"none", "huge"}, !.textcls = {"plain", "ent", "cdata", "comment"}]
     [] gn = "t-place3" -> [Def EXCEPT !.ctxs = CtxMain, !.names = NamesMini, !.wrong = WrongMini, !.attrdev = {}, !.minnodes = 3, !.maxnodes = 3, !.maxdepth = 3]
     [] gn = "t-odd2"   -> [Def EXCEPT !.ctxs = CtxMain, !.names = NamesMini, !.attrdev = {"none", "huge"}, !.minnodes = 2, !.maxnodes = 2, !.maxodd = 2, !.textcls = {"plain", "pi", "space"}]
-    [] gn = "t-mut0"   -> [Def EXCEPT !.maxnodes = 0, !.muts = MutSmall, !.rich = {TRUE, FALSE}, !.entries = {"mem", "file"}]
-    [] gn = "t-mut1"   -> [Def EXCEPT !.names = NamesMini, !.maxodd = 0, !.minnodes = 1, !.muts = MutSmall \ {"none"}]
+    [] gn = "t-mut0"   -> [Def EXCEPT !.ctxs = CtxFirst, !.maxnodes = 0, !.muts = MutSmall, !.rich = {TRUE, FALSE}, !.entries = {"mem", "file"}]
+    [] gn = "t-mut1"   -> [Def EXCEPT !.ctxs = CtxFirst, !.names = NamesMini, !.maxodd = 0, !.minnodes = 1, !.muts = MutSmall \ {"none"}]
     [] gn = "t-mut2"   -> [Def EXCEPT !.ctxs = CtxMain, !.names = NamesMini, !.maxodd = 0, !.minnodes = 2, !.maxnodes = 2, !.muts = {"trunc", "dropend"}]
     [] gn = "t-pkg"    -> PkAll([Def EXCEPT !.ctxs = {"body", "tc", "p", "sectPr", "inline"}, !.maxnodes = 0, !.battery = "full", !.rich = {TRUE, FALSE}])
     [] gn = "t-extreme" -> [Def EXCEPT !.ctxs = {"tc", "r", "bsdt"}, !.names = {"p", "t", "tbl", "text"}, !.wrong = {"tbl"},
                                      !.attrdev = {}, !.minnodes = 1, !.muts = MutExtreme, !.deeps = {30000}, !.wides = {40000}]
-    [] gn = "t-sim"    -> PkAll([Def EXCEPT !.maxnodes = 14, !.maxdepth = 6, !.maxodd = 3, !.muts = MutSim, !.textcls = TextAll, !.rich = {TRUE, FALSE}, !.cross = TRUE, !.battery = "full"])
+    [] gn = "t-ziplie" -> [Def EXCEPT !.ctxs = {"body", "tc"}, !.maxnodes = 0, !.lies = ZipLies, !.entries = EntriesAll, !.battery = "full"]
+    [] gn = "t-sim"    -> PkLies([Def EXCEPT !.maxnodes = 14, !.maxdepth = 6, !.maxodd = 3, !.muts = MutSim, !.textcls = TextAll, !.rich = {TRUE, FALSE}, !.cross = TRUE, !.battery = "full"])
        \* ---- model checking of the reference machine and of the classification
     [] gn = "mc-q"     -> [Def EXCEPT !.ctxs = {"root", "body", "r", "tc"}, !.names = {"document", "body", "p", "r", "t", "text", "tbl", "tr", "tc", "gridSpan", "sectPr", "pgSz", "unknown"},
                                      !.wrong = {"p", "tbl", "tc", "t", "body", "text"}, !.attrdev = {"none"}, !.textcls = {"plain", "comment"},
                                      !.muts = {"none", "trunc", "truncmid", "dropend", "dupstart", "dupend", "swapend", "tworoots", "strict", "empty", "missing", "deep", "wide"},
-                                     !.deeps = {2}, !.wides = {3}, !.pkparts = {"styles"}, !.pkbreaks = {"empty"}, !.zips = {"ok", "nonzip"}, !.battery = "short"]
+                                     !.deeps = {2}, !.wides = {3}, !.pkparts = {"styles"}, !.pkbreaks = {"empty"}, !.zips = {"ok", "nonzip"}, !.lies = {Lie("usize", "huge", "main"), Lie("method", "unknown", "all")}, !.battery = "short"]
     [] gn = "mc-t"     -> [Def EXCEPT !.ctxs = {"root", "doc", "body", "p", "r", "tc", "sectPr", "pic"}, !.names = NamesMini, !.attrdev = {"none", "huge"},
                                      !.wrong = WrongMini \cup {"document", "tr"}, !.textcls = {"plain", "comment", "cdata"}, !.maxnodes = 2,
                                      !.muts = {"none", "trunc", "truncmid", "dropend", "dupstart", "dupend", "swapend", "tworoots", "strict", "empty", "missing", "deep", "wide"},
-                                     !.deeps = {2, 3}, !.wides = {2, 3}, !.pkparts = {"styles"}, !.pkbreaks = {"empty"}, !.zips = {"ok", "nonzip"}, !.battery = "short"]
+                                     !.deeps = {2, 3}, !.wides = {2, 3}, !.pkparts = {"styles"}, !.pkbreaks = {"empty"}, !.zips = {"ok", "nonzip"}, !.lies = {Lie("usize", "huge", "main"), Lie("method", "unknown", "all")}, !.battery = "short"]
 
 G == GroupDef(grp)
 Ctxs == G.ctxs          Names == G.names        WrongNames == G.wrong    AttrDev == G.attrdev   TextCls == G.textcls
 MaxNodes == G.maxnodes  MinNodes == G.minnodes  MaxDepth == G.maxdepth   MaxOdd == G.maxodd     MutKinds == G.muts
 Deeps == G.deeps        Wides == G.wides        PkPartsC == G.pkparts    PkBreaksC == G.pkbreaks ZipsC == G.zips
 EntriesC == G.entries   RichC == G.rich         Cross == G.cross         BatteryName == G.battery
+LiesC == G.lies
 
 \* the calls made on every opened document, in this order (reads, edits, saves)
 BatteryFull == <<"GetParagraphs", "GetTables", "TableReads", "GetPageSettings", "ListHeadings", "Counts", "StyleReads", "ToBytes",
@@ -102,9 +125,10 @@ GenDepth == Len(stk) - Len(Path)
 Init == /\ grp \in Groups /\ pk = NoPk /\ ph = "ctx" /\ ctx = "root" /\ toks = <<>> /\ stk = <<>> /\ nodes = 0 /\ odd = 0
         /\ op = [op |-> "none"] /\ rs = <<>> /\ st = Closed
 
-PkDevs == {[part |-> p, brk |-> b, zip |-> "ok", entry |-> "mem"] : p \in PkPartsC, b \in PkBreaksC}
-     \cup {[part |-> "none", brk |-> "none", zip |-> z, entry |-> e] : z \in ZipsC \ {"ok"}, e \in EntriesC}
-PkPlain == {[part |-> "none", brk |-> "none", zip |-> "ok", entry |-> e] : e \in EntriesC}
+PkDevs == {[part |-> p, brk |-> b, zip |-> "ok", entry |-> "mem", lie |-> NoLie] : p \in PkPartsC, b \in PkBreaksC}
+     \cup {[part |-> "none", brk |-> "none", zip |-> z, entry |-> e, lie |-> NoLie] : z \in ZipsC \ {"ok"}, e \in EntriesC}
+     \cup {[part |-> "none", brk |-> "none", zip |-> "ok", entry |-> e, lie |-> l] : l \in LiesC, e \in EntriesC \ {"memerr"}}
+PkPlain == {[part |-> "none", brk |-> "none", zip |-> "ok", entry |-> e, lie |-> NoLie] : e \in EntriesC}
 
 \* the context and the package around the main part are chosen first
 PickCtx == /\ ph = "ctx"
